@@ -10,7 +10,7 @@ wt = base + '/wt'
 out = base + '/out'
 dst = '/verif/seeded/%s' % pid
 confirm = None
-for f in ('/tmp/seed/confirm_batch1.txt', '/tmp/seed/confirm_batch2.txt', '/tmp/seed/confirm_batch3.txt', '/tmp/seed/confirm_batch4.txt', base + '/confirm.txt'):
+for f in ('/tmp/seed/confirm_batch1.txt', '/tmp/seed/confirm_batch2.txt', '/tmp/seed/confirm_batch3.txt', '/tmp/seed/confirm_batch4.txt', '/tmp/seed/confirm_batch5.txt', base + '/confirm.txt'):
     if os.path.exists(f):
         for line in open(f):
             if line.startswith(pid + ' '):
